@@ -2,6 +2,7 @@
 
 use std::collections::BTreeSet;
 
+use datacake_eventual_consistency::verif as ecv;
 use rand::Rng;
 use serde::{Deserialize, Serialize};
 use serde_json::Value;
@@ -66,6 +67,38 @@ pub fn execute_scenario_with(sc: &Scenario, class_prefix: &str, advert_class: Op
             }
             let local = tokio::task::LocalSet::new();
             let results = std::rc::Rc::new(std::cell::RefCell::new(Vec::new()));
+            // advertised-state arm: peers fetch the keyspace state (GetState through the real
+            // ReplicationService handler) while the group's requests are in progress; every reply
+            // is kept as (change timestamp sent with it, listing of the state sent)
+            let served: std::rc::Rc<std::cell::RefCell<Vec<(String, datacake_crdt::HLCTimestamp, crate::e1::Listing)>>> = Default::default();
+            if advert_class.is_some() {
+                let repl = std::rc::Rc::new(ecv::ReplicationService::new(node.group.clone()));
+                // one fetch per scheduling hop around the moment a writer of that keyspace starts:
+                // the handler talks to the keyspace actor more than once per reply, and a write
+                // may land between any two of those messages
+                for ks in group.iter().map(|r| r.ks.clone()).collect::<BTreeSet<_>>() {
+                    let delay = group.iter().find(|r| r.ks == ks).map(|r| r.delay_ms).unwrap_or(0);
+                    let hops = 4 + mix(0x6E75, gi as u64) % 9;
+                    for h in 0..hops {
+                        let (node, repl, served, ks) = (node.clone(), repl.clone(), served.clone(), ks.clone());
+                        local.spawn_local(async move {
+                            if delay > 0 {
+                                tokio::time::sleep(std::time::Duration::from_millis(delay)).await;
+                            }
+                            for _ in 0..h {
+                                tokio::task::yield_now().await;
+                            }
+                            let msg_ts = node.clock.get_time().await;
+                            let req = datacake_rpc::Request::using_owned(ecv::GetState { keyspace: ks.clone(), timestamp: msg_ts }).await;
+                            if let Ok(rep) = datacake_rpc::Handler::<ecv::GetState>::on_message(repl.as_ref(), req).await {
+                                if let Ok(set) = decode_set(&rep.set) {
+                                    served.borrow_mut().push((ks, rep.last_updated, set_listing(&set)));
+                                }
+                            }
+                        });
+                    }
+                }
+            }
             for (ri, r) in group.iter().enumerate() {
                 let node = node.clone();
                 let r = r.clone();
@@ -90,6 +123,39 @@ pub fn execute_scenario_with(sc: &Scenario, class_prefix: &str, advert_class: Op
                         sig.u64(gi as u64).u64(ri as u64).u64(acked as u64);
                     },
                     Err(e) => return Err(e),
+                }
+            }
+            if advert_class.is_some() {
+                // a peer that fetched (timestamp L, state S) skips the keyspace for as long as the
+                // node advertises L: nothing the node holds under L may be missing from S
+                let info = node.group.get_keyspace_info().await;
+                let served = served.borrow();
+                if std::env::var_os("DCSIM_DEBUG").is_some() {
+                    for (ks, l, (live, dead)) in served.iter() {
+                        eprintln!("group {gi}: served {ks} L={} live {} dead {} (advertised now {:?})", crate::e1::fmt_ts(*l), crate::e1::fmt_list(live), crate::e1::fmt_list(dead), info.keyspace_timestamps.get(ks).map(|t| crate::e1::fmt_ts(*t)));
+                    }
+                }
+                for (i, (ks, l, (live, dead))) in served.iter().enumerate() {
+                    // (two replies are not compared with each other: a reply's state may be newer
+                    // than the timestamp sent with it, which only makes the peer fetch once more)
+                    let _ = i;
+                    let mut later: Vec<(String, crate::e1::Listing)> = Vec::new();
+                    if info.keyspace_timestamps.get(ks).copied() == Some(*l) {
+                        if let Ok(now) = node.set_of(ks).await {
+                            later.push(("the state at the end of the group".to_string(), now));
+                        }
+                    }
+                    out.probe_n("served_states_compared", later.len() as u64);
+                    for (what, (live2, dead2)) in later {
+                        let gained: Vec<_> = live2.iter().filter(|x| !live.contains(x)).chain(dead2.iter().filter(|x| !dead.contains(x))).copied().collect();
+                        if !gained.is_empty() {
+                            out.violate(
+                                "C01/served-state-lags-the-change-timestamp-sent-with-it",
+                                format!("request group {gi}: a GetState reply for keyspace {ks} carried change timestamp {} with live {} / tombstones {}, but {what} under the same change timestamp also holds {}", crate::e1::fmt_ts(*l), crate::e1::fmt_list(live), crate::e1::fmt_list(dead), crate::e1::fmt_list(&gained)),
+                            );
+                            break;
+                        }
+                    }
                 }
             }
             if let Some(class) = advert_class {
